@@ -325,13 +325,13 @@ package parser
 //@ spec rangeOn(r, source) = 0 <= r.Start.Line && r.Start.Line <= r.End.Line && r.End.Line < nsplit(source, "\n") && r.Start.Character >= 0 && r.End.Character >= 0 && (r.Start.Line == r.End.Line ==> r.End.Character >= r.Start.Character) && (r.Start.Line != r.End.Line ==> r.Start.Character <= slen(splitpart(source, "\n", r.Start.Line)))
 
 //@ func (Range).ShowOnSource
-//@   requires [valid-range] rangeOn(r, source)
+//@   requires [valid-range] {C14} rangeOn(r, source)
 //@   modifies nothing
 //@   loop 1
 //@     invariant [range] rangeOn(r, source)
 
 //@ func ParseErrorsToString
-//@   requires [valid-ranges] forall(i, 0, len(errors), rangeOn(errors[i].Range, source))
+//@   requires [valid-ranges] {C14} forall(i, 0, len(errors), rangeOn(errors[i].Range, source))
 //@   modifies nothing
 //@   loop 1
 //@     invariant [ranges] forall(i, 0, len(errors), rangeOn(errors[i].Range, source))
@@ -359,6 +359,10 @@ package parser
 // editor shape - no interface field holds a nil pointer, and the few children the analysis dereferences without a
 // guard are present (the list is in internal/analysis/zz_contracts_verif.go)
 //@   assumes [tree-shape] {C18} ewf(result.Value)
+// NOT proved (T3, the positions ANTLR reports): every error lies on the lines of the input; and the tree of an
+// error-free parse is well formed in the sense the interpreter relies on (its assumption T3, stated at the link)
+//@   assumes [errors-located] {C14} forall(i, 0, len(result.Errors), rangeOn(result.Errors[i].Range, input))
+//@   assumes [error-free-tree] {C12} len(result.Errors) == 0 ==> wf(result.Value)
 //@   assert [out-of-range-reported] {C14} forallidx(i, 0, len(stream.GetAllTokens()), stream.GetAllTokens()[i].GetTokenType() == numberTokenType && !atoi_ok(stream.GetAllTokens()[i].GetText()) ==> len(result.Errors) >= 1)
 //@   modifies allof(parser.ErrorListener), allelems(parser.ParserError)
 //@   loop 1
